@@ -66,7 +66,7 @@ Lemma rel_define_lambda fl W sc e st E stL t ps ks rk body g k bc ctx c c2 l :
   rel pv sv bound u fl W sc e st E stL ->
   params_ok pv sv bound fl sc ps = true -> length ks = length ps ->
   fbody_check (frag_stmts pv sv bound (snd (bind_scope ps ks sc fl)) k (fst (bind_scope ps ks sc fl)))
-              (fun fl1 sc1 x => frag_fexpr pv sv bound fl1 k sc1 x) k body rk = true ->
+              (fun fl1 sc1 x => frag_fexpr pv sv bound fl1 k sc1 x) (fun fl1 sc1 x => frag_expr pv sv bound fl1 k sc1 x) k body rk = true ->
   lower_fbody (statement g) (expression g) body ctx c = Ok (bc, c2) ->
   ucovers u bc -> bound <= t -> t < c -> lut_ok bound l c c2 -> E_free E c c2 ->
   let E1 := sset (fmt_var t) (s_ncell stL) E in
